@@ -187,9 +187,14 @@ def est_stddev(values, w):
     n = int(np.count_nonzero(w > 0))
     if n < 2:
         return None
-    v = np.where(w != 0, values, 0.0)
-    m = float(np.dot(v, w))
-    return float(np.sqrt(n / (n - 1) * np.dot((v - m) ** 2, w)))
+    # exact rational arithmetic on the float inputs (values with a large common offset make the float two-pass formula lose
+    # digits too; the reference should not)
+    from fractions import Fraction  # noqa: PLC0415
+
+    vw = [(Fraction(float(x)), Fraction(float(y))) for x, y in zip(values, w) if y != 0]
+    m = sum(x * y for x, y in vw)
+    var = Fraction(n, n - 1) * sum((x - m) ** 2 * y for x, y in vw)
+    return float(np.sqrt(float(var))) if var >= 0 else float("nan")
 
 
 def grad_mean(slopes, w):
